@@ -24,14 +24,24 @@ the cached instance are those of the stateless reference (`C20_history`), and th
 any plain query after any history equals its answer on a fresh object (`C20_fresh`).
 Lengths are naturals (`k : Nat`): negative lengths index the caches from the end in the real
 code and *are* history dependent (finding F18, outside the domain).
-Queries that never touch the caches (`==`, `<=`, `issubset`, `isdisjoint`, `minify`, …) are the
+Live generators of all three kinds (`words_of_length`, `iter(dfa)`, `successors`/`predecessors`)
+are objects of the instance that are advanced one `next()` at a time between arbitrary other
+calls (`C20_generator`: non-interference + closed form; `C20_words_generator`,
+`C20_iter_generator`, `C20_succ_generator`).  `minify()` (partial DFA) and `to_partial()` read
+`_get_digraph()` through the memo (`Query.minify`, `Query.toPartial`); the rest of their body is a
+function `Ext.viaGraph` of the definition and of the graph object they got.
+NFAs (`_get_lambda_closures`, Model/NFACache.lean): `nstep` threads the memo through every reader;
+`C20_nfa_step`, `C20_nfa_history`, `C20_nfa_fresh` are the same three statements for NFA objects.
+Queries that never touch the caches (`==`, `<=`, `issubset`, `isdisjoint`, `complement`, …) are the
 opaque constructor `Query.other`: for them the statement is about the model's claim that they
 do not read or write the caches, which the correspondence run checks on the real object.
 -/
 import AutomataVerif.Proofs.Cache
+import AutomataVerif.Proofs.CacheGen
+import AutomataVerif.Proofs.NFACache
 
 namespace AV.Props.C20
-open AV AV.DFA
+open AV AV.DFA AV.DFA.CacheGen
 
 variable {σ α : Type} [DecidableEq σ] [DecidableEq α]
 
@@ -41,7 +51,7 @@ theorem C20_inv_init (d : DFA σ α) (key : α → Int) : d.CacheInv key (Inst.f
 
 /-- Every public call keeps the invariant and answers exactly like the stateless reference
 (same answer, same generator positions). -/
-theorem C20_step (d : DFA σ α) (key : α → Int) (ext : Nat → Nat) (s : Inst σ α)
+theorem C20_step (d : DFA σ α) (key : α → Int) (ext : Ext σ) (s : Inst σ α)
     (h : d.CacheInv key s) (q : Query α) :
     d.CacheInv key (d.step key ext s q).1 ∧
       (d.step key ext s q).2 = (d.stepPure key ext s.gens q).2 ∧
@@ -50,13 +60,13 @@ theorem C20_step (d : DFA σ α) (key : α → Int) (ext : Nat → Nat) (s : Ins
   exact ⟨this.1, by rw [this.2], by rw [this.2]⟩
 
 /-- The invariant survives every finite history. -/
-theorem C20_inv_history (d : DFA σ α) (key : α → Int) (ext : Nat → Nat) (qs : List (Query α)) :
+theorem C20_inv_history (d : DFA σ α) (key : α → Int) (ext : Ext σ) (qs : List (Query α)) :
     ∀ (s : Inst σ α), d.CacheInv key s → d.CacheInv key (d.afterHistory key ext s qs) := by
   induction qs with
   | nil => intro s h; exact h
   | cons q qs ih => intro s h; exact ih _ (step_sim ext h q).1
 
-theorem gens_afterHistory_fresh (d : DFA σ α) (key : α → Int) (ext : Nat → Nat)
+theorem gens_afterHistory_fresh (d : DFA σ α) (key : α → Int) (ext : Ext σ)
     (qs : List (Query α)) (s : Inst σ α) (h : d.CacheInv key s) :
     d.runHistory key ext s qs = d.runPure key ext s.gens qs := by
   induction qs generalizing s with
@@ -73,7 +83,7 @@ whatever order — repeated queries, shorter lengths after longer ones and vice 
 generators advanced between other calls or abandoned, `clear_cache` at any point — the list
 of answers is the list of answers of the stateless reference, which recomputes everything
 from the definition. -/
-theorem C20_history (d : DFA σ α) (key : α → Int) (ext : Nat → Nat) (qs : List (Query α)) :
+theorem C20_history (d : DFA σ α) (key : α → Int) (ext : Ext σ) (qs : List (Query α)) :
     d.runHistory key ext Inst.fresh qs = d.runPure key ext [] qs :=
   gens_afterHistory_fresh d key ext qs Inst.fresh (cacheInv_fresh d key)
 
@@ -83,22 +93,25 @@ def Plain : Query α → Prop
   | .wordsOpen _ => False
   | .iterOpen => False
   | .next _ _ => False
+  | .succOpen _ _ _ => False
   | _ => True
 
 /-- The stateless answer of a plain query does not depend on the generator table. -/
-theorem stepPure_plain (d : DFA σ α) (key : α → Int) (ext : Nat → Nat) (g₁ g₂ : List (Gen α))
+theorem stepPure_plain (d : DFA σ α) (key : α → Int) (ext : Ext σ) (g₁ g₂ : List (Gen σ α))
     (q : Query α) (hq : Plain q) :
     (d.stepPure key ext g₁ q).2 = (d.stepPure key ext g₂ q).2 := by
   cases q with
   | wordsOpen k => exact absurd hq (by simp [Plain])
   | iterOpen => exact absurd hq (by simp [Plain])
   | next h f => exact absurd hq (by simp [Plain])
+  | succOpen skey input o => exact absurd hq (by simp [Plain])
   | succs skey input o n fuel => cases n <;> rfl
+  | minify tag => simp only [stepPure]; cases d.allowPartial <;> rfl
   | _ => rfl
 
 /-- **Fresh = after any history**: the answer to a plain query after an arbitrary history on
 the same instance equals its answer as the first call on a fresh object. -/
-theorem C20_fresh (d : DFA σ α) (key : α → Int) (ext : Nat → Nat) (hist : List (Query α))
+theorem C20_fresh (d : DFA σ α) (key : α → Int) (ext : Ext σ) (hist : List (Query α))
     (q : Query α) (hq : Plain q) :
     (d.step key ext (d.afterHistory key ext Inst.fresh hist) q).2 =
       (d.step key ext Inst.fresh q).2 := by
@@ -108,7 +121,7 @@ theorem C20_fresh (d : DFA σ α) (key : α → Int) (ext : Nat → Nat) (hist :
 
 /-- Counting after any history returns the count computed from the definition — in particular
 a shorter length asked after a longer one, and vice versa. -/
-theorem C20_count_any_order (d : DFA σ α) (key : α → Int) (ext : Nat → Nat) (hist : List (Query α))
+theorem C20_count_any_order (d : DFA σ α) (key : α → Int) (ext : Ext σ) (hist : List (Query α))
     (k : Nat) :
     (d.step key ext (d.afterHistory key ext Inst.fresh hist) (.count k)).2 =
       .nat (d.countWordsOfLength k) := by
@@ -118,7 +131,7 @@ theorem C20_count_any_order (d : DFA σ α) (key : α → Int) (ext : Nat → Na
 
 /-- The same for every cached method: after any history they return what the definition
 dictates (the functions characterised in Props/C13.lean). -/
-theorem C20_cached_methods (d : DFA σ α) (key : α → Int) (ext : Nat → Nat) (hist : List (Query α)) :
+theorem C20_cached_methods (d : DFA σ α) (key : α → Int) (ext : Ext σ) (hist : List (Query α)) :
     let s := d.afterHistory key ext Inst.fresh hist
     (d.step key ext s .cardinality).2 = ansOfRes .nat d.cardinality ∧
     (d.step key ext s .len).2 = ansOfRes .nat d.len ∧
@@ -151,14 +164,14 @@ def countNext (h : Nat) : List (Query α) → Nat
   | _ :: qs => countNext h qs
 
 /-- What is left of a `words_of_length` generator. -/
-def remaining (d : DFA σ α) (key : α → Int) : Gen α → Option (List (List α))
+def remaining (d : DFA σ α) (key : α → Int) : Gen σ α → Option (List (List α))
   | .wordsNew k => some (d.wordsOfLength key k)
   | .wordsRun rest => some rest
   | .done => some []
   | _ => none
 
-theorem runPure_wordsGen (d : DFA σ α) (key : α → Int) (ext : Nat → Nat) (h : Nat) :
-    ∀ (qs : List (Query α)) (gens : List (Gen α)) (g : Gen α) (R : List (List α)),
+theorem runPure_wordsGen (d : DFA σ α) (key : α → Int) (ext : Ext σ) (h : Nat) :
+    ∀ (qs : List (Query α)) (gens : List (Gen σ α)) (g : Gen σ α) (R : List (List α)),
       gens[h]? = some g → remaining d key g = some R →
       nextAnswers h qs (d.runPure key ext gens qs) = wordsStream R (countNext h qs) := by
   intro qs
@@ -226,6 +239,9 @@ theorem runPure_wordsGen (d : DFA σ α) (key : α → Int) (ext : Nat → Nat) 
           exact ih _ .done [] (by simp [hlt]) rfl
         | iterNew => simp [remaining] at hR
         | iterRun i l r => simp [remaining] at hR
+        | succNew k i o => simp [remaining] at hR
+        | succRun o c st => simp [remaining] at hR
+        | raising e => simp [remaining] at hR
       · have hne : ∀ h'' f'', Query.next (α := α) h' f ≠ .next h'' f'' ∨ h'' ≠ h := by
           intro h'' f''
           by_cases e : h'' = h
@@ -243,17 +259,28 @@ theorem runPure_wordsGen (d : DFA σ α) (key : α → Int) (ext : Nat → Nat) 
     | iterOpen =>
       exact keep (gens ++ [.iterNew]) (by rw [List.getElem?_append_left hlt]; exact hg)
         (.handle gens.length) (fun _ _ => Or.inl (by intro c; cases c)) rfl
+    | succOpen skey input o =>
+      exact keep (gens ++ [.succNew skey input o]) (by rw [List.getElem?_append_left hlt]; exact hg)
+        (.handle gens.length) (fun _ _ => Or.inl (by intro c; cases c)) rfl
     | succs skey input o n fuel =>
       cases n with
       | zero => exact keep gens hg _ (fun _ _ => Or.inl (by intro c; cases c)) rfl
       | succ n => exact keep gens hg _ (fun _ _ => Or.inl (by intro c; cases c)) rfl
+    | minify tag =>
+      cases hp : d.allowPartial with
+      | true =>
+        exact keep gens hg (.opaque (ext.viaGraph tag d.digraph))
+          (fun _ _ => Or.inl (by intro c; cases c)) (by simp [stepPure, hp])
+      | false =>
+        exact keep gens hg (.opaque (ext.other tag))
+          (fun _ _ => Or.inl (by intro c; cases c)) (by simp [stepPure, hp])
     | _ => exact keep gens hg _ (fun _ _ => Or.inl (by intro c; cases c)) rfl
 
 /-- **Partially consumed generators**: let `g = words_of_length(k)` be created on an instance in
 any coherent state (e.g. after any history).  Whatever other calls are interleaved afterwards
 — other generators, counts of other lengths, `clear_cache` — the successive `next(g)` calls
 deliver exactly the words of length `k` in order, each once, then `StopIteration`. -/
-theorem C20_words_generator (d : DFA σ α) (key : α → Int) (ext : Nat → Nat) (s : Inst σ α)
+theorem C20_words_generator (d : DFA σ α) (key : α → Int) (ext : Ext σ) (s : Inst σ α)
     (hs : d.CacheInv key s) (k : Nat) (qs : List (Query α)) :
     let s' := (d.step key ext s (.wordsOpen k)).1
     nextAnswers s.gens.length qs (d.runHistory key ext s' qs) =
@@ -263,6 +290,217 @@ theorem C20_words_generator (d : DFA σ α) (key : α → Int) (ext : Nat → Na
   rw [gens_afterHistory_fresh d key ext qs s' hs']
   exact runPure_wordsGen d key ext s.gens.length qs s'.gens (.wordsNew k) _
     (by simp [s', step]) rfl
+
+/-! ### partially consumed generators of every kind: `words_of_length`, `iter`, `successors` -/
+
+/-- The fuels of the `next(g_h)` calls inside a history, in order. -/
+def nextFuels (h : Nat) : List (Query α) → List Nat
+  | [] => []
+  | .next h' f :: qs => if h' = h then f :: nextFuels h qs else nextFuels h qs
+  | _ :: qs => nextFuels h qs
+
+omit [DecidableEq α] in
+theorem length_nextFuels (h : Nat) (qs : List (Query α)) : (nextFuels h qs).length = countNext h qs := by
+  induction qs with
+  | nil => rfl
+  | cons q qs ih =>
+    cases q with
+    | next h' f =>
+      by_cases hh : h' = h
+      · simp [nextFuels, countNext, hh, ih]
+      · simp [nextFuels, countNext, hh, ih]
+    | _ => simpa [nextFuels, countNext] using ih
+
+/-- **Non-interference** (stateless reference): whatever other queries are interleaved — other
+generators of any kind, counts, `clear_cache`, … — the answers to the `next` calls of one
+generator are those of the same generator advanced on its own (`soloAnswers`). -/
+theorem runPure_gen_solo (d : DFA σ α) (key : α → Int) (ext : Ext σ) (h : Nat) :
+    ∀ (qs : List (Query α)) (gens : List (Gen σ α)) (g : Gen σ α), gens[h]? = some g →
+      nextAnswers h qs (d.runPure key ext gens qs) = soloAnswers d key g (nextFuels h qs) := by
+  intro qs
+  induction qs with
+  | nil => intro gens g _; rfl
+  | cons q qs ih =>
+    intro gens g hg
+    have hlt : h < gens.length := by
+      rcases Nat.lt_or_ge h gens.length with hl | hl
+      · exact hl
+      · rw [List.getElem?_eq_none hl] at hg; cases hg
+    -- a query that leaves slot `h` alone
+    have keep : ∀ gens', gens'[h]? = some g → ∀ a : Ans α,
+        (∀ h' f, q ≠ .next h' f ∨ h' ≠ h) →
+        d.stepPure key ext gens q = (gens', a) →
+        nextAnswers h (q :: qs) (d.runPure key ext gens (q :: qs)) =
+          soloAnswers d key g (nextFuels h (q :: qs)) := by
+      intro gens' hg' a hne hstep
+      simp only [runPure, hstep]
+      cases q with
+      | next h' f =>
+        have : h' ≠ h := by
+          rcases hne h' f with hh | hh
+          · exact absurd rfl hh
+          · exact hh
+        simp only [nextAnswers, nextFuels, this, if_false]
+        exact ih gens' g hg'
+      | _ => simp only [nextAnswers, nextFuels]; exact ih gens' g hg'
+    cases q with
+    | next h' f =>
+      by_cases hh : h' = h
+      · subst hh
+        simp only [runPure, stepPure, hg, nextAnswers, nextFuels, if_true, soloAnswers]
+        congr 1
+        exact ih _ _ (by simp [hlt])
+      · have hne : ∀ h'' f'', Query.next (α := α) h' f ≠ .next h'' f'' ∨ h'' ≠ h := by
+          intro h'' f''
+          by_cases e : h'' = h
+          · subst e; exact Or.inl (by intro c; cases c; exact hh rfl)
+          · exact Or.inr e
+        cases hg' : gens[h']? with
+        | none => exact keep gens hg .stop hne (by simp [stepPure, hg'])
+        | some g' =>
+          refine keep (gens.set h' (d.pGenNext key f g').1) ?_ (d.pGenNext key f g').2 hne
+            (by simp [stepPure, hg'])
+          rw [List.getElem?_set_ne hh]; exact hg
+    | wordsOpen k =>
+      exact keep (gens ++ [.wordsNew k]) (by rw [List.getElem?_append_left hlt]; exact hg)
+        (.handle gens.length) (fun _ _ => Or.inl (by intro c; cases c)) rfl
+    | iterOpen =>
+      exact keep (gens ++ [.iterNew]) (by rw [List.getElem?_append_left hlt]; exact hg)
+        (.handle gens.length) (fun _ _ => Or.inl (by intro c; cases c)) rfl
+    | succOpen skey input o =>
+      exact keep (gens ++ [.succNew skey input o]) (by rw [List.getElem?_append_left hlt]; exact hg)
+        (.handle gens.length) (fun _ _ => Or.inl (by intro c; cases c)) rfl
+    | succs skey input o n fuel =>
+      cases n with
+      | zero => exact keep gens hg _ (fun _ _ => Or.inl (by intro c; cases c)) rfl
+      | succ n => exact keep gens hg _ (fun _ _ => Or.inl (by intro c; cases c)) rfl
+    | minify tag =>
+      cases hp : d.allowPartial with
+      | true =>
+        exact keep gens hg (.opaque (ext.viaGraph tag d.digraph))
+          (fun _ _ => Or.inl (by intro c; cases c)) (by simp [stepPure, hp])
+      | false =>
+        exact keep gens hg (.opaque (ext.other tag))
+          (fun _ _ => Or.inl (by intro c; cases c)) (by simp [stepPure, hp])
+    | _ => exact keep gens hg _ (fun _ _ => Or.inl (by intro c; cases c)) rfl
+
+/-- **Any live generator, any interleaving** (cached instance): let the generator `g` sit in
+slot `h` of an instance in a coherent state.  Whatever calls follow on the instance, the answers
+to the `next(g)` calls among them are the answers of `g` advanced on its own from the definition
+— and hence (`solo_closed_form`), when none of them ran out of fuel, the stream of the atomic run
+of what was left of `g`, for every sufficiently large fuel `F + K` of that run. -/
+theorem C20_generator (d : DFA σ α) (key : α → Int) (ext : Ext σ) (s : Inst σ α)
+    (hs : d.CacheInv key s) (h : Nat) (g : Gen σ α) (hg : s.gens[h]? = some g) (qs : List (Query α)) :
+    nextAnswers h qs (d.runHistory key ext s qs) = soloAnswers d key g (nextFuels h qs) ∧
+    (Ans.outOfFuel ∉ nextAnswers h qs (d.runHistory key ext s qs) →
+      ∃ K, ∀ F, nextAnswers h qs (d.runHistory key ext s qs) =
+        stream (resid d key (F + K) g) (countNext h qs)) := by
+  have h1 : nextAnswers h qs (d.runHistory key ext s qs) = soloAnswers d key g (nextFuels h qs) := by
+    rw [gens_afterHistory_fresh d key ext qs s hs]
+    exact runPure_gen_solo d key ext h qs s.gens g hg
+  refine ⟨h1, fun hno => ?_⟩
+  rw [h1] at hno ⊢
+  obtain ⟨K, hK⟩ := solo_closed_form d key (nextFuels h qs) g hno
+  exact ⟨K, fun F => by rw [hK F, length_nextFuels]⟩
+
+/-- **Partially consumed `successors` / `predecessors` generators**: let
+`g = successors(input, key=skey, …)` be created on an instance in any coherent state (e.g. after
+any history).  Whatever other calls are interleaved afterwards — counts, other generators,
+`clear_cache` between two `next(g)`, … — the successive `next(g)` calls (none of which ran out of
+fuel) deliver exactly the stream of the atomic run `d.successors skey input o` (the function
+characterised by C14): its words in order, each once, then `StopIteration` (or its exception,
+once).  The cached calls (`isfinite`, `_get_digraph`) happen at the first `next(g)` only. -/
+theorem C20_succ_generator (d : DFA σ α) (key : α → Int) (ext : Ext σ) (s : Inst σ α)
+    (hs : d.CacheInv key s) (skey : α → Int) (input : Option (List α)) (o : SuccOpts)
+    (qs : List (Query α)) :
+    let s' := (d.step key ext s (.succOpen skey input o)).1
+    let answers := nextAnswers s.gens.length qs (d.runHistory key ext s' qs)
+    Ans.outOfFuel ∉ answers →
+      (∃ K, ∀ F, answers = stream (d.successors skey input o (F + K)) (countNext s.gens.length qs)) ∧
+      (∀ F0, (d.successors skey input o F0).2 ≠ .outOfFuel →
+        answers = stream (d.successors skey input o F0) (countNext s.gens.length qs)) := by
+  intro s' answers hno
+  have hs' : d.CacheInv key s' := (step_sim ext hs (.succOpen skey input o)).1
+  have hg : s'.gens[s.gens.length]? = some (.succNew skey input o) := by simp [s', step]
+  obtain ⟨h1, h2⟩ := C20_generator d key ext s' hs' s.gens.length _ hg qs
+  refine ⟨h2 hno, fun F0 hend => ?_⟩
+  show nextAnswers s.gens.length qs (d.runHistory key ext s' qs) = _
+  rw [h1, ← length_nextFuels]
+  exact solo_total d key _ _ (by rw [← h1]; exact hno) F0 hend
+
+/-- **Partially consumed `iter(dfa)` generators** (closed form per `next()`): for `g = iter(dfa)`
+created in any coherent state and any interleaving of other calls, the successive `next(g)` calls
+(none of which ran out of fuel) deliver the stream of the batch run `iterRun` (characterised by
+C13: all words by length, then by `key`): after `m` calls the first `m` words of
+`(iterRun key n).1` for every sufficiently large `n`, and once that list is used up `StopIteration`
+iff the batch run is exhausted. -/
+theorem C20_iter_generator (d : DFA σ α) (key : α → Int) (ext : Ext σ) (s : Inst σ α)
+    (hs : d.CacheInv key s) (qs : List (Query α)) :
+    let s' := (d.step key ext s .iterOpen).1
+    let answers := nextAnswers s.gens.length qs (d.runHistory key ext s' qs)
+    Ans.outOfFuel ∉ answers →
+      (∃ K, ∀ n, answers = stream (ofIter (d.iterRun key (n + K))) (countNext s.gens.length qs)) ∧
+      (∀ n0, (ofIter (d.iterRun key n0)).2 ≠ .outOfFuel →
+        answers = stream (ofIter (d.iterRun key n0)) (countNext s.gens.length qs)) := by
+  intro s' answers hno
+  have hs' : d.CacheInv key s' := (step_sim ext hs .iterOpen).1
+  have hg : s'.gens[s.gens.length]? = some .iterNew := by simp [s', step]
+  obtain ⟨h1, h2⟩ := C20_generator d key ext s' hs' s.gens.length _ hg qs
+  refine ⟨h2 hno, fun n0 hend => ?_⟩
+  show nextAnswers s.gens.length qs (d.runHistory key ext s' qs) = _
+  rw [h1, ← length_nextFuels]
+  exact solo_total d key _ _ (by rw [← h1]; exact hno) n0 hend
+
+/-! ## the NFA half: the `_get_lambda_closures` memo (Model/NFACache.lean) -/
+
+section nfa
+open AV.NFA.CacheProofs
+
+/-- Every public call on an NFA instance keeps the memo coherent (`NMemoOK`: the closure table,
+once cached, is the table computed from the definition) and answers exactly like the stateless
+reference, which computes every λ-closure from the definition (Model/NFA.lean). -/
+theorem C20_nfa_step (n : NFA σ α) (ext : NFA.NExt σ) (s : NFA.NInst σ) (h : NMemoOK n s)
+    (q : NFA.NQuery α) :
+    NMemoOK n (n.nstep ext s q).1 ∧ (n.nstep ext s q).2 = n.nstepPure ext q :=
+  nstep_sim ext h q
+
+theorem nfa_history_from (n : NFA σ α) (ext : NFA.NExt σ) (qs : List (NFA.NQuery α)) :
+    ∀ (s : NFA.NInst σ), NMemoOK n s →
+      n.nrunHistory ext s qs = qs.map (n.nstepPure ext) ∧ NMemoOK n (n.nafterHistory ext s qs) := by
+  induction qs with
+  | nil => intro s h; exact ⟨rfl, h⟩
+  | cons q qs ih =>
+    intro s h
+    have h1 := nstep_sim ext h q
+    have h2 := ih _ h1.1
+    exact ⟨by simp only [NFA.nrunHistory, List.map_cons, h1.2, h2.1], h2.2⟩
+
+/-- **NFA, every finite history**: whatever calls are made on one NFA object, in whatever order
+(acceptance, stepwise reading, `==`, `DFA.from_nfa`, `eliminate_lambda`, …), each answer is the
+answer of the stateless reference — it does not depend on what was asked before. -/
+theorem C20_nfa_history (n : NFA σ α) (ext : NFA.NExt σ) (qs : List (NFA.NQuery α)) :
+    n.nrunHistory ext NFA.NInst.fresh qs = qs.map (n.nstepPure ext) :=
+  (nfa_history_from n ext qs _ (nmemoOK_fresh n)).1
+
+/-- **NFA, fresh = after any history**. -/
+theorem C20_nfa_fresh (n : NFA σ α) (ext : NFA.NExt σ) (hist : List (NFA.NQuery α)) (q : NFA.NQuery α) :
+    (n.nstep ext (n.nafterHistory ext NFA.NInst.fresh hist) q).2 = (n.nstep ext NFA.NInst.fresh q).2 := by
+  rw [(nstep_sim ext (nfa_history_from n ext hist _ (nmemoOK_fresh n)).2 q).2,
+    (nstep_sim ext (nmemoOK_fresh n) q).2]
+
+/-- `0 -λ→ 1 -a→ 1`, `1` final; state `2` only occurs as a target (reading `b` from it is fine,
+reaching it asks for `lambda_closures[2]`: `KeyError` — kept explicit). -/
+def exN : NFA Nat Nat :=
+  { states := [0, 1], syms := [0, 1], trans := [(0, [(none, [1])]), (1, [(some 0, [1]), (some 1, [2])])],
+    init := 0, finals := [1] }
+
+example :
+    exN.nrunHistory { other := id, viaTable := fun t tbl => t + tbl.length } NFA.NInst.fresh
+      [.accepts [0, 0], .readStepwise [0], .viaClosures 5, .accepts [1], .readStepwise []] =
+      [.bool true, .configs [[0, 1], [1]] none, .opaque 7, .exn (.py .keyError),
+       .configs [[0, 1]] none] := by decide
+
+end nfa
 
 /-! ### non-vacuity: a concrete DFA and a concrete history -/
 
@@ -276,13 +514,30 @@ def exHist : List (Query Int) :=
   [.count 3, .wordsOpen 2, .next 0 5, .count 1, .clearCache, .next 0 5, .iterOpen, .next 1 5,
    .count 3, .isFinite, .next 0 5, .next 0 5, .minLen, .randomWord 2 [1, 0]]
 
+def exExt : Ext Nat := { other := id, viaGraph := fun t g => t + g.edges.length }
+
+/-- A `successors(None, max_length=2)` generator advanced across `clear_cache`, another
+generator, `to_partial()` and `minify()`. -/
+def exHist2 : List (Query Int) :=
+  [.succOpen id none { maxLen := some 2 }, .next 0 50, .clearCache, .wordsOpen 1, .next 0 50,
+   .toPartial 0, .next 1 5, .next 0 50, .minify 7, .next 0 50, .next 0 50]
+
 example : exD.validate.isOk = true := by decide
 
 /-- The history is answered as the language dictates: 3 words of length 3 (`001, 011, 111`),
 the generator for length 2 delivers `01, 11` across a `clear_cache`, then stops. -/
 example :
-    exD.runHistory id id Inst.fresh exHist =
+    exD.runHistory id exExt Inst.fresh exHist =
       [.nat 3, .handle 0, .word [0, 1], .nat 1, .unit, .word [1, 1], .handle 1, .word [1],
        .nat 3, .bool false, .stop, .stop, .nat 1, .word [1, 1]] := by decide
+
+/-- `successors` of `0*1⁺` up to length 2 = `01, 1, 11`, delivered one `next()` at a time across
+the other calls, then `StopIteration`; `exD` is complete, so `minify` does not read the digraph. -/
+example :
+    exD.runHistory id exExt Inst.fresh exHist2 =
+      [.handle 0, .word [0, 1], .unit, .handle 1, .word [1], .opaque 6, .word [1], .word [1, 1],
+       .opaque 7, .stop, .stop] := by decide
+example : exD.successors id none { maxLen := some 2 } 100 = ([[0, 1], [1], [1, 1]], .finished) := by
+  decide
 
 end AV.Props.C20
